@@ -64,6 +64,8 @@ FilesExc == [
   x3    |-> [dir |-> "exclude", lines |-> << >>],
   x4    |-> [dir |-> "exclude", lines |-> << E("ab"), E("ba"), E("bb"), E("a"), E("b"), E("aab") >>],
   xv    |-> [dir |-> "exclude", lines |-> << SEntry(<<W("a"), PRef("v")>>) >>],
+  \* a word list whose order shows in the output (no common prefixes), with a repeated entry
+  f3    |-> [dir |-> "include", lines |-> << E("cu"), E("wg"), E("cu"), E("nm"), E("py") >>],
   \* include files whose parser output contains directive lines (block markers)
   fp    |-> [dir |-> "include", lines |-> << SPrefix(<<W("b")>>), E("ab"), E("a"), SSuffix(<<W("a")>>) >>],
   fblk  |-> [dir |-> "include", lines |-> << LStart("assemble", ""), E("ae"), LConcat, E("b"), LEnd, E("ba") >>]
@@ -106,6 +108,7 @@ VocExc == << E("b"),
              SInclude("f1", Pairs1), SInclude("f1", Pairs2), SInclude("f1", Pairs3), SInclude("f1", Pairs4),
              SInclude("f1", Pairs5), SInclude("f2", Pairs3), SInclude("f2", <<>>),
              \* keys that are also the ending of a directive line: only entries may be rewritten
+             SInclExc("f3", <<"x3">>, <<>>), SInclExc("f3", <<"x1">>, << <<"y", "z">> >>),
              SInclude("fp", << <<">", "b">> >>), SInclude("fp", << <<"e", "a">>, <<"<", "b">> >>),
              SInclude("fblk", << <<"e", "b">>, <<">", "a">> >>), SInclExc("fblk", <<"x3">>, << <<"<", "a">>, <<"a", "b">> >>) >>
           \o << LStart("assemble", ""), LEnd, LConcat >>
@@ -125,7 +128,7 @@ Voc  == [i \in 1..Len(Voc0) |-> WithInd(Voc0[i])]
 (* Growing a well-formed main program.                                     *)
 (***************************************************************************)
 TopKind == meta.kinds[Len(meta.kinds)]
-WordFiles == {"plain", "noisy", "nest", "xdir", "f1", "f2"}
+WordFiles == {"plain", "noisy", "nest", "xdir", "f1", "f2", "f3"}
 
 CanAdd(l) ==
     /\ Len(prog) < MaxLines
